@@ -37,9 +37,44 @@ static int predict_p(Keys *K, int c8, int ka, const LweSample *ca, int kb, const
     return rounded_phase(a.data(), (Torus32)b, K->sk->lwe_key->key, K->n, K->N, ties);
 }
 
+// histories over key-set objects: two key sets generated from ONE parameter object and alive together, used alternately; the first deleted and a
+// third generated (its storage is typically re-used); ciphertexts living in arrays (count 5), results written to array elements.
+static void keyset_histories() {
+    for (int lam : {128, 80}) for (int variant = 0; variant < 2; variant++) {
+        std::string key = fmt("keysets/lambda=%d/%s", lam, variant ? "C-replaces-A-before-use" : "A,B-alternate-then-C-replaces-A");
+        if (!take(key)) continue; if (deadline()) return; current(key);
+        uint32_t sd[3] = {(uint32_t)S().seed, 77u + variant, (uint32_t)lam}; tfhe_random_generator_setSeed(sd, 3);
+        TFheGateBootstrappingParameterSet *ps = new_default_gate_bootstrapping_parameters(lam);
+        SK *ks[3] = {new_random_gate_bootstrapping_secret_keyset(ps), new_random_gate_bootstrapping_secret_keyset(ps), nullptr};
+        LweSample *arr = new_gate_bootstrapping_ciphertext_array(5, ps);
+        std::vector<int> order = variant ? std::vector<int>{-1, 2, 1, 2} : std::vector<int>{0, 1, 0, 1, -1, 2, 1, 2};
+        int step = 0; bool ok = true;
+        for (int who : order) { step++;
+            if (who < 0) { delete_gate_bootstrapping_secret_keyset(ks[0]); ks[0] = nullptr; ks[2] = new_random_gate_bootstrapping_secret_keyset(ps); continue; }
+            SK *sk = ks[who];
+            for (const Gate &g : table()) { if (!ok) break;
+                int rows = g.arity == 0 ? 2 : 1 << g.arity; int row = (int)((fnv(g.name, strlen(g.name)) + step) % rows);
+                int bits[3] = {row & 1, (row >> 1) & 1, (row >> 2) & 1};
+                for (int q = 0; q < g.arity; q++) bootsSymEncrypt(&arr[1 + q], bits[q], sk);
+                apply(g, &arr[4], &arr[1], &arr[2], &arr[3], bits[0], &sk->cloud);
+                int want = g.truth(bits[0], bits[1], bits[2]), got = bootsSymDecrypt(&arr[4], sk);
+                if (got != want) { violation(key, fmt("step %d: %s(%d,%d,%d) under key set %c (two key sets from one parameter object alive; A deleted and C generated at step %d) decrypts to %d, truth table says %d", step, g.name, bits[0], bits[1], bits[2], "ABC"[who], variant ? 1 : 5, got, want)); ok = false; }
+                // the other live key set must NOT decrypt consistently by accident of sharing: its phase is unrelated -> nothing to assert; but the result must be admissible under its own key
+                if (g.boots) { int64_t e = ref::sdiff(lwePhase(&arr[4], sk->lwe_key), want ? MU8 : -MU8); if (e < 0) e = -e; if (e >= (1 << 27)) { violation(key, fmt("step %d: %s output phase error %.5f >= 1/32 under key set %c", step, g.name, (double)e / 4294967296.0, "ABC"[who])); ok = false; } }
+                eval(1); if (g.boots) nontrivial(1); outcome(mix(mix(fnv(g.name, strlen(g.name)), who), row * 2 + got));
+            }
+        }
+        delete_gate_bootstrapping_ciphertext_array(5, arr);
+        for (int q = 0; q < 3; q++) if (ks[q]) delete_gate_bootstrapping_secret_keyset(ks[q]);
+        delete_gate_bootstrapping_parameters(ps);
+    }
+    sample("keysets/lambda=128/A,B-alternate-then-C-replaces-A: key sets A and B generated from one parameter object; all 14 gates under A, B, A, B; A deleted, C generated; all gates under C, B, C; ciphertexts are elements 1..4 of one array of 5");
+}
+
 int main(int argc, char **argv) {
     init(argc, argv);
-    int K_ = (int)opti("K", quick() ? 1 : 2); int nk = (int)opti("kinds", quick() ? 3 : 5);
+    if (opt("keysets") == "1") { keyset_histories(); return finish(); }
+    int K_ =(int)opti("K", quick() ? 1 : 2); int nk = (int)opti("kinds", quick() ? 3 : 5);
     std::map<int, Keys *> cache;
     // pass 0: 128-bit, pass 1: 80-bit, pass 2: 128-bit again (kinds F only): a gate must not remember the parameter set of an earlier key
     for (int pass = -1; pass < 3; pass++) for (int seed = 0; seed < ((pass == 2 || pass == -1) ? 1 : K_); seed++) {
